@@ -10,6 +10,7 @@
 //!   new-stream(R)      `MessageStream::for_match_rule(R, &conn, None)` for
 //!                      R ∈ {SIG = the signal rule a proxy signal stream uses,
 //!                           NOC = the NameOwnerChanged(arg0=x.y.Z) rule proxies use,
+//!                           UNTYPED = a rule without a type key (selects signals: registered),
 //!                           CALL = a method_call rule (never to be registered; thorough tier)}
 //!   new-proxy-stream   `proxy::Builder` (cache disabled) for well-known x.y.Z + `receive_signal("Sig")`;
 //!                      yields two handles: the proxy (holds NOC once subscribed) and the signal
@@ -48,7 +49,7 @@ use crate::{
 };
 
 const DEST: &str = "x.y.Z";
-const RULE_NAMES: [&str; 3] = ["SIG", "NOC", "CALL"];
+const RULE_NAMES: [&str; 4] = ["SIG", "NOC", "UNTYPED", "CALL"];
 
 fn rule(r: usize) -> MatchRule<'static> {
     match r {
@@ -74,6 +75,13 @@ fn rule(r: usize) -> MatchRule<'static> {
             .member("NameOwnerChanged")
             .unwrap()
             .add_arg(DEST)
+            .unwrap()
+            .build(),
+        // a rule without a `type` key: it selects signals too and has to be registered
+        2 => MatchRule::builder()
+            .sender(DEST)
+            .unwrap()
+            .interface("x.y.J")
             .unwrap()
             .build(),
         _ => MatchRule::builder()
@@ -104,6 +112,11 @@ fn bus_rule(r: usize) -> BusRule {
             args: vec![(0, DEST.into())],
             ..Default::default()
         },
+        2 => BusRule {
+            sender: Some(DEST.into()),
+            interface: Some("x.y.J".into()),
+            ..Default::default()
+        },
         _ => BusRule {
             typ: Some("method_call".into()),
             interface: Some("x.y.I".into()),
@@ -114,7 +127,7 @@ fn bus_rule(r: usize) -> BusRule {
 
 fn rule_id(s: &str) -> Option<usize> {
     let p = parse_rule(s).ok()?;
-    (0..3).find(|r| bus_rule(*r) == p)
+    (0..4).find(|r| bus_rule(*r) == p)
 }
 
 #[derive(Clone, Copy, PartialEq, Eq, Debug, Hash)]
@@ -234,7 +247,7 @@ impl Model {
         n
     }
     fn is_signal_rule(r: usize) -> bool {
-        r != 2
+        r != 3
     }
 }
 
@@ -507,7 +520,7 @@ fn run_history(ops: &[Op], declone: bool) -> HistResult {
                 }
             }
         }
-        for r in 0..3 {
+        for r in 0..4 {
             let n_reg: usize = reg.iter().filter(|(s, _)| rule_id(s) == Some(r)).map(|(_, n)| *n).sum();
             let want = Model::is_signal_rule(r) && model.live(r) >= 1;
             if want && n_reg == 0 && !removed_in_use.contains(&r) {
@@ -607,7 +620,7 @@ pub fn main(args: &Args) -> i32 {
     }
     let report = Report::new("C37", args.tier, args.seed, "model_checking");
     // (depth, number of MessageStream rules)
-    let spaces: Vec<(usize, usize)> = args.tier.pick(vec![(4, 3), (5, 2)], vec![(5, 3), (6, 2)]);
+    let spaces: Vec<(usize, usize)> = args.tier.pick(vec![(4, 3), (5, 2)], vec![(5, 4), (6, 2)]);
     let totals = fakebus::TreeTotals::default();
     let mut spaces_json = vec![];
     for (depth, n_rules) in &spaces {
